@@ -264,16 +264,32 @@ mod verif_kani_parsed {
     //   to_naive_time  : a successful time agrees with the clock fields, 60 = leap     (vk_parsed_time)
     //   DateTime::from_timestamp(s, 0): None, or the date-time of that second, nanosecond 0   (Verus unit datetime)
     //   NaiveDateTime::checked_sub_signed: None, or a well-formed date-time             (Verus unit datetime: dt_add_post)
-    static mut DATE_CALLS: u8 = 0;
-    static mut TIME_CALLS: u8 = 0;
-    static mut DATE_RES: [Option<ParseResult<NaiveDate>>; 2] = [None, None];
-    static mut TIME_RES: [Option<ParseResult<NaiveTime>>; 2] = [None, None];
-    static mut FT_CALLS: u8 = 0;
-    static mut FT_ARGS: (i64, u32) = (0, 0);
-    static mut FT_RES: Option<NaiveDateTime> = None;
-    static mut CS_CALLS: u8 = 0;
-    static mut CS_ARGS: Option<(NaiveDateTime, TimeDelta)> = None;
-    static mut CS_RES: Option<NaiveDateTime> = None;
+    // All recording goes through ONE static whose bytes contain a magic word.  (Kani 0.68 gives a `static mut` whose initial bytes equal
+    // those of a constant allocation the SAME memory as that constant: writing `static mut CALLS: u8 = 0` changed the value of the
+    // const OUT_OF_RANGE = ParseError(OutOfRange).  A record that starts with a unique word cannot coincide with any constant.)
+    struct Rec {
+        magic: u64,
+        date_calls: u8,
+        time_calls: u8,
+        date_res: [Option<ParseResult<NaiveDate>>; 2],
+        time_res: [Option<ParseResult<NaiveTime>>; 2],
+        ft_calls: u8,
+        ft_args: (i64, u32),
+        ft_res: Option<NaiveDateTime>,
+        cs_calls: u8,
+        cs_args: Option<(NaiveDateTime, TimeDelta)>,
+        cs_res: Option<NaiveDateTime>,
+        ndt_calls: u8,
+        ndt_arg: i32,
+        ndt_res: Option<ParseResult<NaiveDateTime>>,
+        z_utc_calls: u8,
+        z_utc_arg: Option<NaiveDateTime>,
+        z_utc_res: i32,
+        z_loc_calls: u8,
+        z_loc_arg: Option<NaiveDateTime>,
+        z_loc_res: MappedLocalTime<i32>,
+    }
+    static mut REC: Rec = Rec { magic: 0xC0DE_5EED_D15C_0001, date_calls: 0, time_calls: 0, date_res: [None, None], time_res: [None, None], ft_calls: 0, ft_args: (0, 0), ft_res: None, cs_calls: 0, cs_args: None, cs_res: None, ndt_calls: 0, ndt_arg: 0, ndt_res: None, z_utc_calls: 0, z_utc_arg: None, z_utc_res: 0, z_loc_calls: 0, z_loc_arg: None, z_loc_res: MappedLocalTime::None };
     fn any_err() -> ParseError { let k: u8 = kani::any(); match k { 0 => OUT_OF_RANGE, 1 => IMPOSSIBLE, _ => NOT_ENOUGH } }
     fn any_time(frac: u32) -> NaiveTime { let t = NaiveTime::from_num_seconds_from_midnight_opt(kani::any(), frac); kani::assume(t.is_some()); t.unwrap() }
     fn stub_to_naive_date(p: &Parsed) -> ParseResult<NaiveDate> {
@@ -284,7 +300,7 @@ mod verif_kani_parsed {
             if let Some(m) = p.month { kani::assume(d.month() == m); }
             if let Some(x) = p.day { kani::assume(d.day() == x); }
         }
-        unsafe { let i = DATE_CALLS as usize; if i < 2 { DATE_RES[i] = Some(r); } DATE_CALLS += 1; }
+        unsafe { let i = REC.date_calls as usize; if i < 2 { REC.date_res[i] = Some(r); } REC.date_calls += 1; }
         r
     }
     fn stub_to_naive_time(p: &Parsed) -> ParseResult<NaiveTime> {
@@ -298,18 +314,18 @@ mod verif_kani_parsed {
             }
             if let Some(n) = p.nanosecond { kani::assume(t.nanosecond() % 1_000_000_000 == n); }
         }
-        unsafe { let i = TIME_CALLS as usize; if i < 2 { TIME_RES[i] = Some(r); } TIME_CALLS += 1; }
+        unsafe { let i = REC.time_calls as usize; if i < 2 { REC.time_res[i] = Some(r); } REC.time_calls += 1; }
         r
     }
     fn stub_from_timestamp(secs: i64, nsecs: u32) -> Option<crate::DateTime<crate::Utc>> {
         kani::assume(nsecs == 0);                        // the only form this caller uses
         let r = if kani::any() { Some(NaiveDateTime::new(any_valid_date(), any_time(0))) } else { None };
-        unsafe { FT_CALLS += 1; FT_ARGS = (secs, nsecs); FT_RES = r; }
+        unsafe { REC.ft_calls += 1; REC.ft_args = (secs, nsecs); REC.ft_res = r; }
         r.map(|x| x.and_utc())
     }
     fn stub_checked_sub_signed(x: NaiveDateTime, rhs: TimeDelta) -> Option<NaiveDateTime> {
         let r = if kani::any() { Some(NaiveDateTime::new(any_valid_date(), any_time(x.nanosecond()))) } else { None };
-        unsafe { CS_CALLS += 1; CS_ARGS = Some((x, rhs)); CS_RES = r; }
+        unsafe { REC.cs_calls += 1; REC.cs_args = Some((x, rhs)); REC.cs_res = r; }
         r
     }
 
@@ -327,8 +343,8 @@ mod verif_kani_parsed {
         p.timestamp = if kani::any() { Some(kani::any()) } else { None };
         let off: i32 = kani::any();
         let r = p.to_naive_datetime_with_offset(off);          // returns for every input: no panic, no overflow
-        let (d1, t1) = unsafe { (DATE_RES[0].unwrap(), TIME_RES[0].unwrap()) };
-        kani::cover!(r.is_ok() && d1.is_err()); kani::cover!(r.is_ok() && p.second == Some(60) && unsafe { CS_CALLS } == 1);
+        let (d1, t1) = unsafe { (REC.date_res[0].unwrap(), REC.time_res[0].unwrap()) };
+        kani::cover!(r.is_ok() && d1.is_err()); kani::cover!(r.is_ok() && p.second == Some(60) && unsafe { REC.cs_calls } == 1);
         kani::cover!(kind(&r) == Some(ParseErrorKind::Impossible) && d1.is_ok() && t1.is_ok());
         match (d1, t1) {
             (Ok(d), Ok(t)) => {
@@ -347,7 +363,7 @@ mod verif_kani_parsed {
                     else if imp { assert!(r == Err(IMPOSSIBLE), "an impossible part wins over the timestamp"); }
                     else {
                         // resolved from the timestamp: the second from_timestamp(g + off) names, or the leap second that ends there
-                        let (ft_calls, ft_args, base, cs_calls, cs_args, stepped) = unsafe { (FT_CALLS, FT_ARGS, FT_RES, CS_CALLS, CS_ARGS, CS_RES) };
+                        let (ft_calls, ft_args, base, cs_calls, cs_args, stepped) = unsafe { (REC.ft_calls, REC.ft_args, REC.ft_res, REC.cs_calls, REC.cs_args, REC.cs_res) };
                         match g.checked_add(off as i64) {
                             None => assert!(r == Err(OUT_OF_RANGE) && ft_calls == 0, "timestamp + offset out of i64: OutOfRange"),
                             Some(sum) => {
@@ -361,7 +377,7 @@ mod verif_kani_parsed {
                                         if step && stepped.is_none() { assert!(r == Err(OUT_OF_RANGE), "the step leaves the range: OutOfRange"); }
                                         if let Ok(dt) = r {
                                             let want = if step { stepped.unwrap() } else { base };
-                                            let (d2, t2) = unsafe { (DATE_RES[1].unwrap(), TIME_RES[1].unwrap()) };
+                                            let (d2, t2) = unsafe { (REC.date_res[1].unwrap(), REC.time_res[1].unwrap()) };
                                             assert!(d2 == Ok(dt.date()) && t2 == Ok(dt.time()), "the result is what the resolvers return for the completed field set");
                                             assert!(dt.date() == want.date() && dt.hour() == want.hour() && dt.minute() == want.minute(), "date, hour and minute of the second the timestamp names");
                                             if p.second != Some(60) { assert!(dt.second() == want.second() && dt.nanosecond() < 1_000_000_000, "that very second"); }
@@ -379,12 +395,9 @@ mod verif_kani_parsed {
     }
 
     // ---- Parsed::to_datetime over the contract of to_naive_datetime_with_offset ---------------------------------------------------
-    static mut NDT_CALLS: u8 = 0;
-    static mut NDT_ARG: i32 = 0;
-    static mut NDT_RES: Option<ParseResult<NaiveDateTime>> = None;
     fn stub_ndt_with_offset(_p: &Parsed, offset: i32) -> ParseResult<NaiveDateTime> {
         let r: ParseResult<NaiveDateTime> = if kani::any() { Ok(NaiveDateTime::new(any_valid_date(), any_time(kani::any()))) } else { Err(any_err()) };
-        unsafe { NDT_CALLS += 1; NDT_ARG = offset; NDT_RES = Some(r); }
+        unsafe { REC.ndt_calls += 1; REC.ndt_arg = offset; REC.ndt_res = Some(r); }
         r
     }
 
@@ -397,7 +410,7 @@ mod verif_kani_parsed {
         p.offset = any_opt_i32();
         p.timestamp = if kani::any() { Some(kani::any()) } else { None };
         let r = p.to_datetime();
-        let (calls, arg, res) = unsafe { (NDT_CALLS, NDT_ARG, NDT_RES) };
+        let (calls, arg, res) = unsafe { (REC.ndt_calls, REC.ndt_arg, REC.ndt_res) };
         kani::cover!(r.is_ok() && p.offset.is_none()); kani::cover!(kind(&r) == Some(ParseErrorKind::Impossible) && res.map_or(false, |x| x.is_ok()));
         let off = match (p.offset, p.timestamp) { (Some(o), _) => Some(o), (None, Some(_)) => Some(0), (None, None) => None };
         match off {
@@ -422,6 +435,108 @@ mod verif_kani_parsed {
                 }
             }
         }
+    }
+
+    // ---- Parsed::to_datetime_with_timezone for EVERY zone: the zone is a TimeZone whose answers are arbitrary ---------------------
+    // AnyZone answers each query with any value of the right type (an over-approximation of every TimeZone implementation) and
+    // records it; DateTime::from_timestamp and to_naive_datetime_with_offset are taken through their contracts as above.
+    fn any_fixed() -> FixedOffset { let o = FixedOffset::east_opt(kani::any()); kani::assume(o.is_some()); o.unwrap() }
+    #[derive(Clone, Copy, Debug)]
+    struct AnyZone;
+    impl TimeZone for AnyZone {
+        type Offset = FixedOffset;
+        fn from_offset(_: &FixedOffset) -> AnyZone { AnyZone }
+        fn offset_from_local_date(&self, _: &NaiveDate) -> MappedLocalTime<FixedOffset> { MappedLocalTime::Single(any_fixed()) }
+        fn offset_from_utc_date(&self, _: &NaiveDate) -> FixedOffset { any_fixed() }
+        fn offset_from_utc_datetime(&self, utc: &NaiveDateTime) -> FixedOffset {
+            let o = any_fixed();
+            unsafe { REC.z_utc_calls += 1; REC.z_utc_arg = Some(*utc); REC.z_utc_res = o.local_minus_utc(); }
+            o
+        }
+        fn offset_from_local_datetime(&self, local: &NaiveDateTime) -> MappedLocalTime<FixedOffset> {
+            let k: u8 = kani::any();
+            let r = match k { 0 => MappedLocalTime::None, 1 => MappedLocalTime::Single(any_fixed()), _ => MappedLocalTime::Ambiguous(any_fixed(), any_fixed()) };
+            unsafe { REC.z_loc_calls += 1; REC.z_loc_arg = Some(*local); REC.z_loc_res = r.map(|o| o.local_minus_utc()); }
+            r
+        }
+    }
+    fn stub_from_timestamp_any(secs: i64, nsecs: u32) -> Option<crate::DateTime<crate::Utc>> {
+        let r = if kani::any() { Some(NaiveDateTime::new(any_valid_date(), any_time(nsecs))) } else { None };
+        unsafe { REC.ft_calls += 1; REC.ft_args = (secs, nsecs); REC.ft_res = r; }
+        r.map(|x| x.and_utc())
+    }
+
+    // fns: Parsed::to_datetime_with_timezone (generic in the zone), TimeZone::from_local_datetime (provided method)
+    // assumes: kani:vk_parsed_ndt_with_offset, DateTime::from_timestamp
+    #[kani::proof]
+    #[kani::stub(Parsed::to_naive_datetime_with_offset, stub_ndt_with_offset)]
+    #[kani::stub(crate::DateTime::<crate::Utc>::from_timestamp, stub_from_timestamp_any)]
+    fn vk_parsed_to_datetime_with_timezone() {
+        let mut p = Parsed::new();
+        p.offset = any_opt_i32();
+        p.nanosecond = any_opt_u32();
+        p.timestamp = if kani::any() { Some(kani::any()) } else { None };
+        let r = p.to_datetime_with_timezone(&AnyZone);       // returns for every zone answer: no panic
+        let (ft_calls, ft_args, ft_res) = unsafe { (REC.ft_calls, REC.ft_args, REC.ft_res) };
+        let (zu_calls, zu_arg, guessed) = unsafe { (REC.z_utc_calls, REC.z_utc_arg, REC.z_utc_res) };
+        let (zl_calls, zl_arg, zl_res) = unsafe { (REC.z_loc_calls, REC.z_loc_arg, REC.z_loc_res) };
+        let (n_calls, n_arg, n_res) = unsafe { (REC.ndt_calls, REC.ndt_arg, REC.ndt_res) };
+        kani::cover!(r.is_ok() && p.timestamp.is_some() && matches!(zl_res, MappedLocalTime::Ambiguous(..)));
+        kani::cover!(kind(&r) == Some(ParseErrorKind::NotEnough) && n_res.map_or(false, |x| x.is_ok()));
+        let with_ts = match p.timestamp {
+            None => { assert!(ft_calls == 0 && zu_calls == 0, "no timestamp: no instant lookup"); false }
+            Some(ts) => {
+                assert!(ft_calls == 1 && ft_args == (ts, p.nanosecond.unwrap_or(0)), "the instant of the timestamp (and nanosecond) is looked up");
+                match ft_res {
+                    None => { assert!(n_calls == 0, "unrepresentable timestamp: nothing is resolved"); assert!(kind(&r) == Some(ParseErrorKind::OutOfRange), "unrepresentable timestamp: OutOfRange"); return; }
+                    Some(u) => assert!(zu_calls == 1 && zu_arg == Some(u), "the zone is asked for the offset at that instant"),
+                }
+                true
+            }
+        };
+        assert!(n_calls == 1 && n_arg == (if with_ts { guessed } else { 0 }), "the local value is resolved with the offset in effect at the timestamp");
+        let local = match n_res.unwrap() { Err(e) => { assert!(r == Err(e), "the resolver's error is passed on"); return; } Ok(l) => l };
+        assert!(zl_calls == 1 && zl_arg == Some(local), "the zone maps that local value");
+        // a candidate offset is acceptable iff it equals the supplied offset field and (with a timestamp) the offset at that instant
+        let ok = |o: i32| -> bool { (!with_ts || o == guessed) && p.offset.map_or(true, |f| f == o) };
+        let inst = |o: i32| -> Option<NaiveDateTime> { local.checked_sub_offset(FixedOffset::east_opt(o).unwrap()) };
+        let is = |r: &ParseResult<crate::DateTime<AnyZone>>, o: i32| -> bool { match r { Ok(dt) => dt.offset().local_minus_utc() == o && Some(dt.naive_utc()) == inst(o), Err(_) => false } };
+        match zl_res {
+            MappedLocalTime::None => assert!(r == Err(IMPOSSIBLE), "no such local time in the zone"),
+            MappedLocalTime::Single(o) => {
+                if inst(o).is_none() { assert!(r == Err(IMPOSSIBLE), "instant out of range"); }
+                else if ok(o) { assert!(is(&r, o), "the single candidate, at the zone's offset"); }
+                else { assert!(r == Err(IMPOSSIBLE), "a candidate contradicting the offset field or the timestamp is refused"); }
+            }
+            MappedLocalTime::Ambiguous(a, b) => {
+                if inst(a).is_none() || inst(b).is_none() { assert!(r == Err(IMPOSSIBLE), "instant out of range"); }
+                else {
+                    match (ok(a), ok(b)) {
+                        (false, false) => assert!(r == Err(IMPOSSIBLE), "neither candidate agrees"),
+                        (true, false) => assert!(is(&r, a), "the candidate that agrees with the supplied fields"),
+                        (false, true) => assert!(is(&r, b), "the candidate that agrees with the supplied fields"),
+                        (true, true) => assert!(r == Err(NOT_ENOUGH), "both agree: not enough to decide"),
+                    }
+                }
+            }
+        }
+        // the property itself: a successful result never contradicts the offset field
+        if let (Ok(dt), Some(f)) = (&r, p.offset) { assert!(dt.offset().local_minus_utc() == f, "offset field agrees"); }
+    }
+
+    fn stub_ft_none(_secs: i64, _nsecs: u32) -> Option<crate::DateTime<crate::Utc>> { None }
+    fn stub_ft_rec(secs: i64, nsecs: u32) -> Option<crate::DateTime<crate::Utc>> { unsafe { REC.ft_calls += 1; REC.ft_args = (secs, nsecs); } None }
+    fn stub_ft_any0(_secs: i64, _nsecs: u32) -> Option<crate::DateTime<crate::Utc>> { if kani::any() { Some(NaiveDateTime::new(any_valid_date(), any_time(0)).and_utc()) } else { None } }
+
+    // guard for the recording device itself: writing every recorder field leaves the crate's error constants intact
+    // fns: (harness infrastructure)
+    #[kani::proof]
+    fn vk_parsed_recorder_sound() {
+        unsafe { REC.ft_calls = 1; REC.z_utc_calls = 1; REC.date_calls = 1; REC.time_calls = 1; REC.cs_calls = 1; REC.ndt_calls = 1; REC.z_loc_calls = 1; REC.ndt_arg = 1; REC.z_utc_res = 1; }
+        assert!(OUT_OF_RANGE.kind() == ParseErrorKind::OutOfRange && IMPOSSIBLE.kind() == ParseErrorKind::Impossible && NOT_ENOUGH.kind() == ParseErrorKind::NotEnough, "constants unchanged by recorder writes");
+        assert!(unsafe { REC.magic } == 0xC0DE_5EED_D15C_0001, "magic word intact");
+        let p = Parsed::new();
+        assert!(p.timestamp.is_none() && p.offset.is_none() && p.year.is_none(), "Parsed::new() unaffected");
     }
 }
 
